@@ -243,7 +243,10 @@ class WebSocketServer(websocket.WebSocketServerProtocol):
             self.send("message", side=sm.side, phase=sm.phase,
                       body=sm.body, server_rx=sm.server_rx, id=sm.msg_id)
         def _stop():
-            pass
+            # the mailbox was deleted: forget it, so a later "add" is
+            # refused instead of storing a message nobody can reach
+            self._mailbox = None
+            self._listening = False
         self._listening = True
         for old_sm in self._mailbox.add_listener(self, _send, _stop):
             _send(old_sm)
